@@ -65,6 +65,36 @@ class FutureSink(AsyncSink):
         return asyncio.get_running_loop().run_in_executor(None, self.seek, offset)
 
 
+class MinimalSink:
+    """What the helpers document for file_factory(filename, headers): write and seek. (read is for the harness.)"""
+
+    def __init__(self, filename, headers):
+        self.filename, self.headers, self._d = filename, headers, bytearray()
+
+    def write(self, data):
+        self._d.extend(data)
+
+    def seek(self, offset):
+        pass
+
+    def read(self, size=-1):
+        return bytes(self._d)
+
+
+class MinimalAsyncSink:
+    def __init__(self, filename, headers):
+        self.filename, self.headers, self._d = filename, headers, bytearray()
+
+    async def awrite(self, data):
+        self._d.extend(data)
+
+    async def aseek(self, offset):
+        pass
+
+    async def aread(self, size=-1):
+        return bytes(self._d)
+
+
 class C15(Prop):
     id = "C15"
     level = "exploration"
@@ -104,7 +134,12 @@ class C15(Prop):
                 mp = 0
             if isinstance(mm, int) and mm < 0:
                 mm = 0
-            return {"fam": fam, "form": form, "max_parts": mp, "max_mem": mm}
+            return {"fam": fam, "form": form, "max_parts": mp, "max_mem": mm,
+                    # an over-limit body that is ALSO damaged further on (a part whose header line has no colon / no Content-Disposition):
+                    # the limit is crossed first, for every chunking
+                    "damaged_tail": t.choice([None, None, None, b"no colon in this header line\r\n\r\nx", b"X-Other: 1\r\n\r\nx"]),
+                    # the caller's own upload sink: only the documented write/seek (awrite/aseek) interface
+                    "minimal_sink": t.draw(3) == 0}
         if fam == "defaults":
             n = t.choice([323, 324, 325, 326])
             form = {"boundary": "bnd", "preamble": b"", "epilogue": b"", "final_crlf": True,
@@ -192,12 +227,33 @@ class C15(Prop):
         if plan["max_parts"] != "default":
             kw["max_form_parts"] = mp
         kw["max_form_memory_size"] = mm
+        if expect_413 and plan.get("damaged_tail"):
+            ctx.probe("limits_exceeded_then_damaged")
+            closing = b"--" + form["boundary"].encode("latin-1") + b"--"
+            at = body.rfind(closing)
+            tail = b"--" + form["boundary"].encode("latin-1") + b"\r\n" + plan["damaged_tail"] + b"\r\n" + body[at:]
+            pieces = list(pieces)
+            # the damaged part rides in the same chunk as whatever preceded the closing delimiter
+            cut, acc = at, []
+            for p_ in pieces:
+                if cut <= 0:
+                    break
+                acc.append(p_[:cut])
+                cut -= len(p_)
+            acc[-1:] = [acc[-1] + tail] if acc else [tail]
+            pieces = acc
+        if plan.get("minimal_sink"):
+            ctx.probe("minimal_upload_sink")
         outcomes = {}
         for surf in ("parse_stream", "parse_async_stream"):
             try:
                 if surf == "parse_stream":
+                    if plan.get("minimal_sink"):
+                        kw["file_factory"] = MinimalSink
                     got = feed.items_of_sync(feed.run_parse_stream(form["boundary"], pieces, **kw))
                 else:
+                    if plan.get("minimal_sink"):
+                        kw["file_factory"] = MinimalAsyncSink
                     got = feed.run_parse_async_stream(ctx, form["boundary"], pieces, None, post=feed.items_of_async, **kw)
                 outcomes[surf] = ("ok", got)
             except HTTPException as e:
